@@ -187,6 +187,17 @@ def cls_renamed_item_replace_only_child(f):
             and 'TypeError' in json.dumps([f.observed, f.note], default=str))
 
 
+def cls_args_shadow_textual_lookup(f):
+    """C15: an edit raises ValueError '... is not in list' from the shadow-list
+    bookkeeping of TexArgs, after an argument-list operation earlier in the
+    history on a node that had textually equal arguments."""
+    obs = json.dumps([f.observed, f.note], default=str)
+    if 'ValueError' not in obs or 'is not in list' not in obs:
+        return False
+    hist = json.dumps((f.opts or {}).get('history', f.inp), default=str)
+    return 'args_pop' in hist or 'args_' in hist
+
+
 def _env_names_of(src):
     """names of the environments of the tolerant parse of src (as strings)"""
     import impl
@@ -292,6 +303,16 @@ def reproduces(k):
                 return False
             except EOFError:
                 return True
+        if kid == 'KF-args-shadow-list-textual-lookup':
+            soup = impl.parse('\\k{v}{v}')
+            k = soup.find('k')
+            k.args.pop(-1)
+            k.string = 'new str'
+            try:
+                k.args.append('{z}')
+            except ValueError:
+                return True
+            return str(soup) != '\\k{new str}{z}'
         if kid == 'KF-renamed-item-replace-only-child':
             soup = impl.parse('\\begin{itemize}\\item\\c\\end{itemize}')
             soup.contents[0].contents[0].name = 'foo'
@@ -309,6 +330,7 @@ CLASSIFIERS = {
     'bare_arg_braces': cls_bare_arg_braces,
     'env_matched_by_end': cls_env_matched_by_end,
     'renamed_item_replace_only_child': cls_renamed_item_replace_only_child,
+    'args_shadow_textual_lookup': cls_args_shadow_textual_lookup,
     'bracket_env_name': cls_bracket_env_name,
     'skip_name_not_five_tokens': cls_skip_name_not_five_tokens,
     'env_name_padding': cls_env_name_padding,
